@@ -43,6 +43,8 @@ type fsm struct {
 	keepAliveTimer    *time.Timer
 	keepAliveInterval time.Duration
 	idleHoldTimer     *time.Timer
+
+	verifFSM // instrumentation state; empty unless built with the verif tag
 }
 
 func newFSM(peer *peer, conn net.Conn) *fsm {
@@ -54,6 +56,7 @@ func newFSM(peer *peer, conn net.Conn) *fsm {
 		// we do not hold down the first time entering idle state
 		idleHoldTimer: time.NewTimer(0),
 	}
+	f.verifInit(conn != nil)
 	return f
 }
 
@@ -126,6 +129,7 @@ func (f *fsm) run() {
 
 		// signal state transition to local peer manager for coordination with
 		// the "other" fsm.
+		verifPoint("fsm.req", f)
 		select {
 		case f.peer.getFSMTransitionCh(f) <- t:
 			select {
@@ -137,6 +141,7 @@ func (f *fsm) run() {
 			t = newStateTransition(t.from, disabledState)
 		}
 
+		verifPoint("fsm.approved", f)
 		if t.to != toBefore && t.to == disabledState && f.conn != nil &&
 			t.from > activeState {
 			// we were disabled while transitioning to a target state with an
@@ -167,6 +172,7 @@ func (f *fsm) run() {
 
 		if err != nil {
 			// if an error occurred we signal it to the peer
+			verifPoint("fsm.err", f)
 			select {
 			case <-f.closeCh:
 				t = newStateTransition(t.to, disabledState)
@@ -214,6 +220,14 @@ func (f *fsm) dialPeer() {
 	f.cancelDialFn = cancel
 	go func() {
 		defer close(f.dialResultCh)
+		if conn, err, ok := verifDial(ctx, f); ok {
+			verifPoint("dial.done", f)
+			dialResultCh <- &dialResult{
+				conn: conn,
+				err:  err,
+			}
+			return
+		}
 		var (
 			laddr net.Addr
 			err   error
@@ -235,6 +249,7 @@ func (f *fsm) dialPeer() {
 		conn, err := dialer.DialContext(ctx, "tcp",
 			net.JoinHostPort(f.peer.config.RemoteAddress.String(),
 				strconv.Itoa(f.peer.options.port)))
+		verifPoint("dial.done", f)
 		dialResultCh <- &dialResult{
 			conn: conn,
 			err:  err,
@@ -792,6 +807,7 @@ func (u *updateMessageWriter) WriteUpdate(b []byte) error {
 	case <-u.closeCh:
 		return io.ErrClosedPipe
 	default:
+		verifPoint("wu.write", nil)
 		_, err := u.conn.Write(prependHeader(b, updateMessageType))
 		if err == nil {
 			select {
@@ -946,9 +962,11 @@ func (f *fsm) established() (fsmState, error) {
 	}
 
 	to, err := established()
+	verifPoint("est.teardown", f)
 	f.cleanupConnAndReader()
 	f.holdTimer.Stop()
 	f.keepAliveTimer.Stop()
+	verifPoint("est.onclose", f)
 	f.peer.plugin.OnClose(f.peer.config)
 	return to, err
 }
